@@ -29,3 +29,7 @@ package p2p
 //@   requires ctxBounded(ctx)
 //@   modifies $now
 //@   ensures [C10] by-hash: result1 == nil ==> len(result0) == 1 && result0[0].Hash() == hash
+
+//@ func (*ExchangeServer).requestHandler(serv, stream)
+//@   props C10
+//@   modifies ghost:storeReads, $now
